@@ -83,11 +83,18 @@ def main():
         return 'obj:' + type(v).__name__
 
     def bounds_list(b):
-        if b is None:
-            return None
-        if hasattr(b, 'bounds'):
-            b = b.bounds
-        return [[None if l is None else hx(l), None if u is None else hx(u)] for (l, u) in b]
+        # biogeme_optimization.Bounds, scipy.optimize.Bounds (infinite = no bound) or a list of pairs; never raises
+        try:
+            if b is None:
+                return None
+            if hasattr(b, 'bounds'):
+                b = b.bounds
+            elif hasattr(b, 'lb') and hasattr(b, 'ub'):
+                b = [(None if not np.isfinite(l) else float(l), None if not np.isfinite(u) else float(u))
+                     for l, u in zip(np.atleast_1d(b.lb), np.atleast_1d(b.ub))]
+            return [[None if l is None else hx(l), None if u is None else hx(u)] for (l, u) in b]
+        except Exception as e:  # noqa
+            return 'unreadable: ' + repr(e)[:120]
 
     def install_spies():
         import biogeme_optimization.function as bof
